@@ -79,7 +79,7 @@ void f_div_eq () {
       {
         if (!sp->u.number)
           error ("Division by 0nn\n");
-        sp->u.number = (argp->u.number /= sp->u.number);
+        sp->u.number = argp->u.number = lpc_int_div (argp->u.number, sp->u.number);
         sp->subtype = 0;
         break;
       }
@@ -426,7 +426,7 @@ void f_mod_eq () {
     error ("Bad right type to %=\n");
   if (sp->u.number == 0)
     error ("Modulo by 0\n");
-  sp->u.number = argp->u.number %= sp->u.number;
+  sp->u.number = argp->u.number = lpc_int_mod (argp->u.number, sp->u.number);
   sp->subtype = 0;
 }
 
